@@ -49,7 +49,7 @@ TECHNIQUE = ("bounded-exhaustive enumeration of MapSpec pipelines x storage x lo
              "coordinate value")
 RULE = ("G-MAP (vmc/gen_map.py quick generator: roots {x[i]; x[i],y[i]; x[i],y[j]; x[i,j]; x[i,j],y[j]; x[i],n}, distinct string elements, "
         "1-D roots as lists). quick: every 1-function pipeline x {dict+persist, file_array} x load_intermediate {T,F} x ('all' + every "
-        "non-empty subset of the output names); every 2-function pipeline whose second function consumes only `a`, or `a` and a new "
+        "non-empty subset of the output names), plus file_array x T x 'all' with a mapped 1-D root that also has a default of other values, and (>= 2 roots) with every name in a scope (agreement of the two builders only); every 2-function pipeline whose second function consumes only `a`, or `a` and a new "
         "1-D root z zipped with a's first axis (first function: one output, no internal axis other than the zipped one; second: no "
         "internal axis): file_array x {T,F} x ('all' + each single output), dict x {T,F} x 'all'; the two-input ones again with the second function's inputs in the opposite order (z[..], a[..] -> c[..]) (file_array x {T,F} x 'all', dict x T x 'all'). thorough adds: the rest of the full "
         "product for that 2-function sub-bound (file_array: remaining subsets, dict: singles); every other 2-function pipeline of the "
@@ -284,7 +284,7 @@ def _quiet():
     return st
 
 
-def run_group(spec, storage, combos):  # noqa: C901, PLR0912
+def run_group(spec, storage, combos, variant=None):  # noqa: C901, PLR0912
     """one real map run; then for each (load_intermediate, names|None) both builders.  Yields
     (case, [(sig, text)], info) where info = {'coords': int, 'zips': int, 'outcome': str|None, 'skipped_subdict': bool}"""
     pred = predicates(spec)
@@ -297,14 +297,24 @@ def run_group(spec, storage, combos):  # noqa: C901, PLR0912
         results = pipeline = None
         fail = None
         try:
+            ish = gen_map.internal_shapes_arg(spec)
             with _quiet():
                 pipeline = gen_map.build(spec)
-                results = pipeline.map(dict(inputs), run_folder=folder, internal_shapes=gen_map.internal_shapes_arg(spec),
-                                       parallel=False, storage=storage)
+                if variant == "root-default":
+                    # a mapped 1-D root ALSO has a default of the same length but other values: what labels the axis is the input
+                    r = [k for k, a in spec["roots"].items() if len(a) == 1][-1]
+                    pipeline.update_defaults({r: [f"default-{k}" for k in range(len(inputs[r]))]})
+                elif variant == "scoped":
+                    # every name in one scope: the names (and the input files) contain a dot; only the agreement of the two
+                    # builders is checked for this variant
+                    pipeline.update_scope("s", inputs="*", outputs="*")
+                    inputs = {"s." + k: v for k, v in inputs.items()}
+                    ish = {"s." + k: v for k, v in ish.items()} if ish else ish
+                results = pipeline.map(dict(inputs), run_folder=folder, internal_shapes=ish, parallel=False, storage=storage)
         except Exception as e:  # noqa: BLE001
             fail = (findings.exc_sig(e, phase="map", **pred), f"map failed on {desc}: {type(e).__name__}: {str(e)[:120]}")
         for li, names in combos:
-            case = {"spec": spec, "storage": storage, "li": li, "outs": names}
+            case = {"spec": spec, "storage": storage, "li": li, "outs": names, **({"variant": variant} if variant else {})}
             info = {"coords": 0, "zips": 0, "outcome": None, "skipped_subdict": False, "stats": collections.Counter()}
             if fail is not None:
                 yield case, [fail], info
@@ -348,6 +358,8 @@ def run_group(spec, storage, combos):  # noqa: C901, PLR0912
                                  f"xarray_dataset_from_results and load_xarray_dataset differ (load_intermediate={li}, names={names}) on {desc}: "
                                  f"{_describe(built['from_results'])} vs {_describe(built['load'])}"))
             for entry, ds in built.items():
+                if variant == "scoped":
+                    break
                 if entry == "load" and same:
                     continue  # identical to the one already checked
                 with _quiet():
@@ -365,7 +377,7 @@ def _describe(ds) -> str:
 
 
 def run_case(case):
-    for _, viol, _ in run_group(case["spec"], case["storage"], [(case["li"], case["outs"])]):
+    for _, viol, _ in run_group(case["spec"], case["storage"], [(case["li"], case["outs"])], case.get("variant")):
         return viol
     return []
 
@@ -487,8 +499,14 @@ def run_unit(unit):
         if any(len(a) >= 2 for a in spec["roots"].values()):
             acc.stratum("pipelines-with-2d-root")
         skey = gen_map.key(spec)
-        for storage, combos in groups_for(spec, st):
-            for case, viol, info in run_group(spec, storage, combos):
+        groups = [(storage, combos, None) for storage, combos in groups_for(spec, st)]
+        if st == "1-function":
+            if any(len(a) == 1 for a in spec["roots"].values()):
+                groups.append(("file_array", [(True, None)], "root-default"))
+            if len(spec["roots"]) >= 2:
+                groups.append(("file_array", [(True, None)], "scoped"))
+        for storage, combos, variant in groups:
+            for case, viol, info in run_group(spec, storage, combos, variant):
                 nt = info["coords"] > 0
                 acc.case(f"{skey}|{case['li']}|{case['outs']}" if nt else None)
                 acc.stratum("storage-" + storage)
